@@ -220,3 +220,13 @@ Example C20_source_read_example :
   = GoSem.Ret (GoSem.Scanner [] [] 0%Z true,
       ([((65, 65), one); ((65, 255), m2); ((255, 65), m2); ((255, 255), one)]%N, 0%Z)).
 Proof. vm_compute. reflexivity. Qed.
+
+(* Symmetrical as translated from align.go (the range over the map with the two stores and
+   the conflict check through a comma-ok read and a float comparison) is the model's fold of
+   sym_step over the entries (the list order stands for Go's iteration order), with a panic
+   in exactly the same cases.  Floats are their canonical texts; == is Smtext.feq. *)
+Theorem C20_symmetrical_is_source : forall m : smatrix,
+  ImpGen.imp_alignf_SubstitutionMatrix_Symmetrical m
+  = match symmetrical m with Ok r => GoSem.Ret r | _ => GoSem.Panics end.
+Proof. exact ImpProofsO.imp_Symmetrical. Qed.
+Print Assumptions C20_symmetrical_is_source.
